@@ -11,6 +11,7 @@ package db
 
 //@ extern fmt.Sprintf
 //@   pure
+//@   ensures [autoindex] streq(format, "sqlite_autoindex_%s_%d") && len(a) == 2 && hasType(a[0], "string") && hasType(a[1], "int") ==> result == autoindex_name(deref(a[0], "string"), deref(a[1], "int"))
 
 //@ extern fmt.Errorf
 //@   pure
